@@ -701,6 +701,12 @@ def run(ctx: Ctx, rep: Report, tier: str) -> None:
     setter_completeness(ctx, sub3)
     carried_flags(ctx, sub3)
     rep.absorb(sub3, "R12.14")
+    # R12.15 no valid line is refused for its length (C06 R06.9): a long entry dropped with a warning is a lost line
+    from .c06 import length_gates
+
+    sub4 = Report("C12")
+    length_gates(ctx, sub4)
+    rep.absorb(sub4, "R12.15")
     # R12.9 premise: the whitespace normaliser the builders apply first maps every spelling of a line to its canonical
     # form (C06 R06.5): a line it leaves un-normalised matches no pattern and is dropped
     from .c06 import normaliser_fixed_point
